@@ -9,11 +9,13 @@ pub proof fn lemma_clear<P: Prefix, T>(m1: PrefixMap<P, T>)
         m1.content() =~= IMap::<Seq<bool>, (P, T)>::empty(),
 {
     let t = m1.tab(); let l = m1.live();
+    lemma_free_empty(1);
+    assert(m1.free@ =~= Seq::<usize>::empty());
     let par = |c: int| 0int;
     assert(l.contains(0));
     assert forall|i: int| #[trigger] l.contains(i) implies i == 0 by { }
     assert(tloc(t, l, par));
-    assert(twf_live(t, l));
+    lemma_twf_intro(t, l);
     reveal_with_fuel(nval, 2);
     assert forall|k: Seq<bool>| !content(t, l).dom().contains(k) by {
         lemma_content_dom(t, l, k);
